@@ -139,8 +139,13 @@ def run_history(job):
                 paths.file_manager.add_named_file(name=name, path=f"{name}.csv")
             for name, ps in job["groups"].items():
                 paths.paths_manager.add_named_paths(name=name, paths=list(ps))
+            insts = {}
             for run in job["runs"]:
-                if run.get("new_instance"):
+                if run.get("inst") is not None:          # named instances: a history may go back to an instance it used earlier
+                    if run["inst"] not in insts:
+                        insts[run["inst"]] = new()
+                    paths = insts[run["inst"]]
+                elif run.get("new_instance"):
                     paths = new()
                 if job.get("record"):
                     instrument(paths)
